@@ -2563,3 +2563,9 @@ M("C07", "classifier-on-subgraph", "loop_detection/calculate_loop_components.py"
 M("C05", "linearise-from-any-source", PG,
   "        head_node = top_sort[0]", "        head_node = top_sort[-1]", "R5.18",
   "linearisation does not start at the first node in topological order (seed C05-k)")
+
+# ============================================================ wave n/o
+for _P, _R in (("C01", "R1.18"), ("C05", "R5.16")):
+    M(_P, "merge-decision-revalidated", WALK,
+      "        if self.will_merge and not self.loop_kill_paths[-1]:\n            return True\n",
+      "", _R, "every later path re-validates the merge with one path fewer (seed C01-o)")
